@@ -1245,3 +1245,22 @@ Qed.
 (* a file whose definitions are all gated out is rejected (specification = definition+) *)
 Lemma all_gated_out_rejected : forall n body, compile [PIf false n body] = Err 0.
 Proof. intros. unfold compile, preprocess. cbn [pp_items]. rewrite pp_if. reflexivity. Qed.
+
+(* combined forms used by Props/C41.v *)
+Lemma headers_preserved : forall defs items,
+  supported defs = true -> compile_defs defs = Ok items ->
+  known_multi_annot defs = false -> known_split defs = false ->
+  struct_headers_of (shape_of_items 0 items) = struct_headers_of (shape_of_defs [] defs)
+  /\ enums_of (shape_of_items 0 items) = enums_of (shape_of_defs [] defs).
+Proof. intros. split; [apply struct_headers_preserved | apply enums_preserved]; assumption. Qed.
+
+Lemma unions_aliases_consts_preserved : forall defs items,
+  supported defs = true -> compile_defs defs = Ok items ->
+  known_bounds defs = false -> known_multi_dim defs = false ->
+  unions_of (shape_of_items 0 items) = unions_of (shape_of_defs [] defs)
+  /\ aliases_of (shape_of_items 0 items) = aliases_of (shape_of_defs [] defs)
+  /\ consts_of (shape_of_items 0 items) = consts_of (shape_of_defs [] defs).
+Proof.
+  intros defs items Hs Hc K1 K3. split; [apply unions_preserved; assumption|].
+  apply aliases_consts_preserved; assumption.
+Qed.
